@@ -25,6 +25,32 @@ from harness.l2 import _frames                    # noqa: E402
 ACK, READY, TASK, NACK, DEATH = bp.ACK, bp.READY, bp.TASK, bp.NACK, bp.DEATH
 SOFT = bp.SIG_SOFT_TIMEOUT
 EXITS = []              # (pid, status) passed to the exit callback
+LOOP_STARTED = set()    # virtual pids whose workloop has been entered
+_orig_workloop = bp.Worker.workloop
+
+
+def _workloop_flagged(self, *a, **kw):
+    LOOP_STARTED.add(vos.cur_pid())
+    return _orig_workloop(self, *a, **kw)
+
+
+_WORKER_CODES = None
+
+
+def worker_codes():
+    """Code objects of the real Worker (the flagging wrapper excluded)."""
+    global _WORKER_CODES
+    if _WORKER_CODES is None:
+        saved = bp.Worker.workloop
+        bp.Worker.workloop = _orig_workloop
+        try:
+            _WORKER_CODES = linepoints.codes_of(bp.Worker)
+        finally:
+            bp.Worker.workloop = saved
+    return _WORKER_CODES
+
+
+bp.Worker.workloop = _workloop_flagged
 
 
 def on_exit_cb(pid, status):
@@ -56,6 +82,7 @@ class Run:
         cfg = self.cfg
         del tasks.INVOKED[:]
         del EXITS[:]
+        LOOP_STARTED.clear()
         sched = vs.Scheduler(vs.Choices(), max_steps=100000)
         sched.intr_handler = vproc.run_pending_signals
         res = {}
@@ -78,7 +105,7 @@ class Run:
                 vp = world.procs[pid]
                 vt = vp.main_vt
                 if self.lines:
-                    linepoints.enable(linepoints.codes_of(bp.Worker))
+                    linepoints.enable(worker_codes())
                     sched.linepoints = True
                 try:
                     self._drive(world, sched, vt, vp, inq, outq, synq,
@@ -99,7 +126,8 @@ class Run:
                            t_injected=self.t_injected,
                            phase_at_inject=self.phase_at_inject,
                            guard_sleeps=self.guard_sleeps,
-                           handler_installed=self.handler_installed)
+                           handler_installed=self.handler_installed,
+                           loop_started=self.loop_started)
             finally:
                 vproc.launcher = None
                 vctx.reset_billiard_globals()
@@ -114,6 +142,7 @@ class Run:
         self.ended = False
         self.parent_blocked = None
         self.injected_at = None
+        self.loop_started = False
         self.handler_installed = False
         self.t_injected = None
         self.phase_at_inject = None
@@ -126,6 +155,7 @@ class Run:
                 self.injected_at = (step, p.op)
                 self.handler_installed = callable(
                     vp.handlers.get(self.inject[1]))
+                self.loop_started = vp.pid in LOOP_STARTED
                 self.t_injected = world.now
                 self.phase_at_inject = self._phase(outbuf, len(self.fed))
                 vos.v_kill(vp.pid, self.inject[1])
@@ -329,11 +359,21 @@ def term_check(cfg, r, inject):
     step, op = r['inject_at'] or (None, None)
     if r['inject_at'] is None:
         return None                     # finished before the injection point
-    if not r['handler_installed']:
-        # start-up, before the worker installed its handlers: the default
-        # action ends the process at once (no callback can run)
+    if not r['loop_started']:
+        # start-up (handlers not installed yet, or the job loop not entered
+        # yet): the process simply ends; there is no task to stop and the
+        # statement speaks about workers that take jobs
         if r['state'] == 'running':
-            return 'process survived an unhandled termination signal'
+            return 'process survived a termination signal during start-up'
+        if [m for m in r['msgs'] if m and m[0] == ACK]:
+            return 'a worker signalled during start-up still took a job'
+        return None
+    if not r['handler_installed']:
+        # already on its way out (the disposition was reset by an earlier
+        # signal, or the signal is ignored while the death notice is sent)
+        if r['state'] == 'running':
+            return ('an exiting worker did not exit after another '
+                    'termination signal at point %d (%s)' % (step, op))
         return None
     if r['state'] == 'running':
         sig = None
@@ -375,7 +415,7 @@ def soft_check(cfg, r, inject):
     step, op = r['inject_at']
     acks_before, readies_before, fed = r['phase_at_inject']
     in_task = acks_before > readies_before and op == 'task'
-    if not in_task or not r['handler_installed']:
+    if not in_task or not r['handler_installed'] or not r['loop_started']:
         return None       # between jobs / inside pool code: see DESIGN C06
     k = acks_before - 1
     name = r['fed'][k]
@@ -385,7 +425,11 @@ def soft_check(cfg, r, inject):
         return ('job %d was hit by the soft limit inside the task and sent %d '
                 'results' % (10 + k, len(res)))
     ok, val = res[0][2]
-    if name == 'catch':
+    if name == 'convert':
+        if ok or val.type is not tasks.TaskFailed:
+            return ('task wraps whatever interrupts it, but the soft limit '
+                    'surfaced as %r' % ((ok, getattr(val, 'type', val)),))
+    elif name == 'catch':
         if not ok or val != ('caught-soft', k):
             return ('task caught the soft limit and returned a value, but the '
                     'result delivered is %r' % ((ok, val),))
